@@ -5,7 +5,7 @@ Set Implicit Arguments.
 Inductive fsop :=
 | FCopy (u : uval) | FExtend (us : list uval) | FFromIter (us : list uval) | FClear | FReserve (n : N)
 | FClone | FObserve | FSerde
-| FWithCap (n : N) | FMergeCap (k : nat) | FResRegs (us : list uval).
+| FWithCap (n : N) | FMergeCap (k : nat) | FResRegs (us : list uval) | FResItems (us : list uval).
 
 Record FSM := { fm : MRegion; fs_ic : IC (idx (mr fm)); fs_ics : ICSer fs_ic }.
 
@@ -67,6 +67,12 @@ Section FSMach.
     | FWithCap _ :: ops' => UNone :: fs_run (fs_default R S) ops'
     | FMergeCap k :: ops' => UNone :: fs_run (merge R (repeat (fst x) k), ic_default S) ops'
     | FResRegs us :: ops' =>
+        match omap_vals us with
+        | None => [UL [UN 99]]
+        | Some _ => UNone :: fs_run x ops'
+        end
+    (* FlatStack::reserve_items: invisible *)
+    | FResItems us :: ops' =>
         match omap_vals us with
         | None => [UL [UN 99]]
         | Some _ => UNone :: fs_run x ops'
